@@ -113,6 +113,12 @@ class Scenario:
                     return False
                 data += d
             nw.deliver(s.fs, data)
+        elif kind == "seq":
+            # ("seq", ev1, ev2, ...): several events as one step of a history (e.g. "one second passes, then a message arrives")
+            for sub in ev[1:]:
+                if not self.apply(tuple(sub)):
+                    return False
+            return True
         elif kind == "x":
             # ("x", c1, name1, c2, name2): two connections receive a message in the same instant (one select round sees both)
             s1, s2 = self.sock(ev[1]), self.sock(ev[3])
